@@ -328,21 +328,61 @@ pub struct AV { pub b: Vec<u8> }      // an attribute name or value (`S: AsRef<[
 impl AV { pub fn as_ref(&self) -> (r: &[u8]) ensures r@ == self.b@ { self.b.as_slice() } }
 pub struct HashSet { pub g: u8 }      // HashSet<S>
 impl HashSet {
-    pub uninterp spec fn count(&self) -> nat;
-    pub uninterp spec fn value_trees(&self) -> Seq<T>;   // the values as OCTET STRINGs, in iteration order
+    pub uninterp spec fn elems(&self) -> Seq<AV>;        // the values, in the set's iteration order
+    pub open spec fn count(&self) -> nat { self.elems().len() }
+    pub open spec fn value_trees(&self) -> Seq<T> { self.elems().map_values(|a: AV| t_os(a.b@)) }   // the values as OCTET STRINGs, in iteration order
     #[verifier::external_body] pub fn is_empty(&self) -> (r: bool) ensures r == (self.count() == 0) { unimplemented!() }
-    #[verifier::external_body] pub fn from(a: [AV; 1]) -> (r: HashSet) ensures r.count() == 1, r.value_trees() == seq![t_os(a@[0].b@)] { unimplemented!() }
+    #[verifier::external_body] pub fn from(a: [AV; 1]) -> (r: HashSet) ensures r.elems() == seq![a@[0]] { unimplemented!() }
+    #[verifier::external_body] pub fn into_iter(self) -> (r: SetIter) ensures r.items@ == self.elems() { unimplemented!() }
 }
+// `set.into_iter().map(f).collect()`: f on each value in iteration order (the adapters are std's; stub with an element-wise
+// contract).  The consequence the callers need -- the collected tags are the values' OCTET STRING trees -- is PROVED below
+// from that contract and the contract woven onto the closure, not assumed.
+pub struct SetIter { pub items: Ghost<Seq<AV>> }
+pub struct Mapped { pub v: Vec<Tag> }
 #[verifier::external_body]
-pub fn verif_value_tags(set: HashSet) -> (r: Vec<Tag>) ensures trees(r@, r@.len()) == set.value_trees() { unimplemented!() }
+pub fn set_map_raw<F: Fn(AV) -> Tag>(it: SetIter, f: F) -> (o: Mapped)
+    requires forall|i: int| 0 <= i < it.items@.len() ==> f.requires((#[trigger] it.items@[i],)),
+    ensures o.v@.len() == it.items@.len(), forall|i: int| 0 <= i < it.items@.len() ==> f.ensures((it.items@[i],), #[trigger] o.v@[i]),
+{ unimplemented!() }
+impl SetIter {
+    pub fn map<F: Fn(AV) -> Tag>(self, f: F) -> (o: Mapped)
+        requires forall|i: int| 0 <= i < self.items@.len() ==> f.requires((#[trigger] self.items@[i],)),
+        ensures o.v@.len() == self.items@.len(),
+            (forall|a: AV, t: Tag| #[trigger] f.ensures((a,), t) ==> tree(t) == t_os(a.b@)) ==> trees(o.v@, o.v@.len()) == self.items@.map_values(|a: AV| t_os(a.b@)),
+    {
+        let ghost items = self.items@;
+        let o = set_map_raw(self, f);
+        proof {
+            if forall|a: AV, t: Tag| #[trigger] f.ensures((a,), t) ==> tree(t) == t_os(a.b@) {
+                lemma_trees_len(o.v@, o.v@.len());
+                assert forall|i: int| 0 <= i < items.len() implies trees(o.v@, o.v@.len())[i] == items.map_values(|a: AV| t_os(a.b@))[i] by { assert(f.ensures((items[i],), o.v@[i])); }
+                assert(trees(o.v@, o.v@.len()) =~= items.map_values(|a: AV| t_os(a.b@)));
+            }
+        }
+        o
+    }
+}
+impl Mapped { pub fn collect(self) -> (r: Vec<Tag>) ensures r == self.v { self.v } }
 //@item file=src/ldap.rs kind=enum name=Mod retype="Mod<S: AsRef<[u8]> + Eq + Hash> => Mod; HashSet<S> => HashSet; (S, => (AV,; , S) => , AV)"
 pub open spec fn mod_op(m: Mod) -> int { match m { Mod::Add(_, _) => 0, Mod::Delete(_, _) => 1, Mod::Replace(_, _) => 2, Mod::Increment(_, _) => 3 } }
 pub open spec fn mod_attr(m: Mod) -> Seq<u8> { match m { Mod::Add(a, _) => a.b@, Mod::Delete(a, _) => a.b@, Mod::Replace(a, _) => a.b@, Mod::Increment(a, _) => a.b@ } }
 pub open spec fn mod_vals(m: Mod) -> Seq<T> { match m { Mod::Add(_, s) => s.value_trees(), Mod::Delete(_, s) => s.value_trees(), Mod::Replace(_, s) => s.value_trees(), Mod::Increment(_, v) => seq![t_os(v.b@)] } }
 
+// the innermost closures (one value -> its OCTET STRING), lifted as functions and passed by name (lifter L7 + R12)
+//@lift name=modify::value file=src/ldap.rs block=".map(|val|" as="fn modify_value_tag(val: AV) -> (o: Tag)"
+//@ spec
+    ensures tree(o) == t_os(val.b@), //# C02.modify_value_is_an_octet_string_of_the_value
+//@end
+//@lift name=add::value file=src/ldap.rs block=".map(|v|" as="fn add_value_tag(v: AV) -> (o: Tag)"
+//@ spec
+    ensures tree(o) == t_os(v.b@), //# C02.add_value_is_an_octet_string_of_the_value
+//@end
 //@lift name=modify::change file=src/ldap.rs block=".map(|m|" as="fn modify_change(m: Mod, any_add_empty: &mut bool) -> (r: Tag)"
 //@ sub "any_add_empty = true;" => "*any_add_empty = true;"
-//@ sub "set\n                                            .into_iter()\n                                            .map(|val| {\n                                                Tag::OctetString(OctetString {\n                                                    inner: Vec::from(val.as_ref()),\n                                                    ..Default::default()\n                                                })\n                                            })\n                                            .collect()" => "verif_value_tags(set)"
+//@ arg ".map(|val|" => "modify_value_tag"
+//@ insert before "if set.is_empty() && is_add {"
+                            proof { assert(set.value_trees() =~= mod_vals(m)); }
 //@ insert before "Tag::Sequence(Sequence {\n                                inner: vec![op, part_attr],"
                             proof {
                                 tree_lemmas::lemma_trees2(part_attr->Sequence_0.inner@, 2);
@@ -358,7 +398,7 @@ pub open spec fn mod_vals(m: Mod) -> Seq<T> { match m { Mod::Add(_, s) => s.valu
 
 //@lift name=add::attribute file=src/ldap.rs block=".map(|(name, vals)|" as="fn add_attribute(name: AV, vals: HashSet, any_empty: &mut bool) -> (r: Tag)"
 //@ sub "any_empty = true;" => "*any_empty = true;"
-//@ sub "vals\n                                            .into_iter()\n                                            .map(|v| {\n                                                Tag::OctetString(OctetString {\n                                                    inner: Vec::from(v.as_ref()),\n                                                    ..Default::default()\n                                                })\n                                            })\n                                            .collect()" => "verif_value_tags(vals)"
+//@ arg ".map(|v|" => "add_value_tag"
 //@ tail at="Tag::Sequence(Sequence {\n                                inner: vec!["
                             proof { tree_lemmas::lemma_trees2(verif_ret->Sequence_0.inner@, 2); }
 //@ spec
